@@ -70,9 +70,6 @@ def strOfFlds (name : String) : List Fld → String
 
 def T.strAttr (t : T) (name : String) : String := strOfFlds name t.flds
 
-/-- `hasattr(ast_node, name)` for a field name. -/
-def T.hasAttr (t : T) (name : String) : Bool := t.flds.any (fun f => f.name = name)
-
 /-! ### placeholder names (`_name_regex`) -/
 
 inductive NameClass where
@@ -206,7 +203,7 @@ def symbolHandler (cm : Bool) (idVal : String) (pp : Path) (p : T) (sp : Path) (
   let mm := metasMatch cm p s
   match nameClass name with
   | .var =>
-    if mm && s.hasAttr idVal then
+    if mm && s.kind = p.kind then
       let sid := s.strAttr idVal
       if s.field = "func" && p.field ≠ "none" then
         some ((pairMap pp sp).addBind ⟨.func, name, sid, sp.dropLast⟩)
